@@ -81,6 +81,10 @@ CHECKS = {
    text="A1: every arithmetic operator of NumberError (+,-,*,/,**, unary -, log, exp, apply with and without a gradient, cal_err with every pattern of exact/uncertain operands) x operand patterns (both uncertain, right exact, left exact = reflected forms) x values {0.5,2,7.5,-3} x errors {0.1,0.25} against first-order propagation with mpmath derivatives, error >= 0. A2: get_params_error (default, correct, hesse, 3-point) and cal_hesse_error after a converged fit for couplings / bounded mass / lower-bounded width scenarios against sqrt(diag(H^-1)) with H from AD of the reported NLL; trans_error_matrix against y' V y'. A3: fit-fraction errors (old/new x every resonance and interference entry x identity/diagonal/correlated covariance x batch sizes x weighted/unweighted x floating sets) against sqrt(J V J^T) with J the AD Jacobian of the fraction rebuilt from partial-sum densities. A4: vm.error_trans and ConfigLoader.params_trans for 7 expressions (scalar, vector, dict valued) x 3 covariances.",
    note="First-order propagation; reflected operators the class does not implement are counted as not offered; A2 needs a positive-definite Hessian (obtained by converging first).",
    technique="bounded-exhaustive enumeration of operators / operand patterns / derived quantities with AD and mpmath Jacobian oracles"),
+ "C19": dict(level="exploration", ref="4-C19",
+   text="(a) Explicit exploration of load histories: every sequence of 2 (quick) / 3 (thorough) loads over five cards that share particle names but differ in spins, candidate lists and options, in one process with the same dict objects reused; the full model signature (chains with quantum numbers and (l,s) lists, variable names, trainable set, ties, bounds, Gaussian constraints, fixed line-shape values, density on probe events with parameters set by name) must equal that of the card loaded first in a fresh interpreter, and the caller's dict must not be modified. (b,c,e) A grammar of generated cards (resonance spin-parities x candidate lists x per-decay options p_break / l_list, three- and four-body): kept chains = reference chain expansion filtered by the C13 reference (l,s) rules, declared top and finals, as_config() -> load reproduces chains and quantum numbers. (d) Aliases (Par, m0, g0, bw), $include (plain, list, with overrides in the same and in the other alias spelling), candidate lists, and key-order permutations of the particle and decay sections equal their expanded form.",
+   note="Fresh-process references are computed in separate interpreters, once per card.",
+   technique="explicit-state exploration of load histories with a fresh-process differential oracle + bounded-exhaustive card grammar against a reference expansion"),
 }
 
 NA_REASON = "check not built yet in this round (planned in DESIGN.md section 4)"
